@@ -18,13 +18,22 @@ KINDS = [lambda i, p: '%s-t%d' % (p, i), lambda i, p: {'from': p, 'n': i}, lambd
 BURSTS = [1, 2, 16, 17, 40]
 
 
+# every shape of payload the API accepts, degenerate ones first
+ZOO = ['', {}, [], b'', [[]], {'k': {}}, 'plain', 'unicode-\u00e9-\u2028-\U0001f600', {'n': None, 't': True, 'f': 1.5, 's': 'x'},
+       [1, 'two', [3]], b'\x00', b'\xff' * 40, ' leading and trailing ']
+_ZOO_ON = [False]
+
+
 def payload(i, who):
+    if _ZOO_ON[0]:
+        return ZOO[i]
     return KINDS[i % 3](i, who)
 
 
 class Interop(core.Scenario):
     def build(self):
         p = self.params
+        _ZOO_ON[0] = bool(p.get('zoo'))
         iv, to = p['heartbeat']
         self.iv, self.to = iv, to
         lat = self.lat = p.get('latency', 0.0)
@@ -79,6 +88,9 @@ class Interop(core.Scenario):
             sapp.append(core.Action('server.disconnect', lambda sc: (setattr(sc, 'disc_step', sc.world.nstep), sc.world.sw.call('disconnect', sid)),
                                     None, self.t_end))
         self.scripts = [capp, sapp]
+        if p.get('zoo') and not p.get('atonce'):
+            # one script, alternating directions (the interleavings of 14 + 14 independent sends are not the point here)
+            self.scripts = [[a for pair in zip(capp, sapp) for a in pair]]
         self.digests = []
 
     def step_check(self):
@@ -110,6 +122,7 @@ class Interop(core.Scenario):
     def finish(self):
         w = self.world
         p = self.params
+        _ZOO_ON[0] = bool(p.get('zoo'))
         trig = '%s/%s' % ('+'.join(p['transports'] or ['both']), 'burst>16' if max(p['c2s'], p['s2c']) > 16 else 'burst<=16')
         if self.lat:
             trig += '/latency'
@@ -204,6 +217,10 @@ def param_list(ctx, pairs):
                     ps.append(dict(base_p, c2s=0, s2c=n, atonce=True))
                 ps.append(dict(base_p, c2s=0, s2c=0, idle=6))
                 if hb == [1.0, 1.0]:
+                    # one message of every payload shape in each direction, one at a time and as one batch
+                    ps.append(dict(base_p, c2s=len(ZOO), s2c=len(ZOO), zoo=True))
+                    ps.append(dict(base_p, c2s=len(ZOO), s2c=len(ZOO), zoo=True, atonce=True))
+                if hb == [1.0, 1.0]:
                     ps.append(dict(base_p, c2s=3, s2c=3))
                     ps.append(dict(base_p, c2s=17, s2c=17, atonce=True))
                     for who in ('client', 'server'):
@@ -296,10 +313,10 @@ def run(ctx):
         'samples': samples[:4],
         'evaluations': st.executions, 'distinct_nontrivial': len(st.outcomes),
         'rule': '2x2 client/server pairs x transports {[polling],[websocket],both} x heartbeat {(1,1),(2,1)} x conversations: one-directional '
-                'bursts of %r sends with text/JSON/binary payloads, a 3+3 exchange, an idle period of 6 heartbeat cycles with a lasso check, '
+                'bursts of %r sends with text/JSON/binary payloads, one message of each of %d payload shapes (empty text / dict / list / bytes, nested empties, Unicode, separators, floats, 40-byte binary) in each direction, a 3+3 exchange, an idle period of 6 heartbeat cycles with a lasso check, '
                 'and disconnect by either side right after an exchange or after 2 idle cycles. The two applications are parallel scripts: '
                 'the same conversations over a virtual network with one-way delays of 1/16 .. 7/16 s (heartbeat settings chosen so that heartbeats fall inside the handshake and the upgrade while six delays stay within ping_timeout); all interleavings everywhere; one deviation for the small conversations of the %s pairs. states = distinct (scenario, both '
-                'event logs) digests.' % (BURSTS, 'same-kind' if ctx.quick else 'all'),
+                'event logs) digests.' % (BURSTS, len(ZOO), 'same-kind' if ctx.quick else 'all'),
         'exhaustive': True, 'bound_completed': 1, 'caps_hit': st.caps,
         'executions_by_deviations': {str(k): v for k, v in sorted(st.by_dev.items())},
         'scenarios': len(p0) + len(small) + len(plat), 'latency_scenarios': len(plat), 'determinism_gate': gate,
